@@ -119,7 +119,7 @@ OpenSection(ps, f) ==
       t     == f.title
       hit   == IF "TITLE" \in o.flags /\ (o.vals = <<>> \/ IsMulti(o))
                  THEN FindTitle(o.vals, t, ps.pc.nocase) ELSE 0
-      fresh == [title |-> t, opts |-> InitOpts(o.sub)]
+      fresh == MkSec(t, InitOpts(o.sub))
   IN IF hit # 0 /\ "NO_TITLE_DUPES" \in o.flags
        THEN [ok |-> FALSE, ps |-> FailD(ps), f |-> f, ii |-> 0]
      ELSE IF o.vals = <<>> \/ IsMulti(o)
